@@ -1031,6 +1031,22 @@ func gen(r0 *vlib.R, n int, tier string, emit func(string)) {
 	findSpecials()
 	count := 0
 	wrap := func(s string) { emit(s); count++ }
+	// the consumer side, exhaustively: every way the anchors are withdrawn x every route to the
+	// answer (cold, cut cached, only the parent cut cached, unsigned zone) x CD
+	for _, wd := range []string{"none", "corrupt", "zero", "unreadable"} {
+		for _, route := range []string{"cold", "warm", "warm-parent", "insecure"} {
+			for _, cd := range []string{"f", "t"} {
+				wrap(fmt.Sprintf("autota l3 %s %s %s", wd, route, cd))
+			}
+		}
+	}
+	for _, wd := range []string{"start-corrupt", "start-zero"} {
+		for _, route := range []string{"cold", "insecure"} {
+			for _, cd := range []string{"f", "t"} {
+				wrap(fmt.Sprintf("autota l3 %s %s %s", wd, route, cd))
+			}
+		}
+	}
 	scripted := []func(*story){storyRollover, storyMissing, storyMissing, storyLegacy, storyCollision, storyDamagedStore, storyDamagedStore,
 		storyForgedClaims, storyForgedClaims, storyForgedClaims, storyRideAlong, storyRideAlong, storyRideAlong,
 		storyRevocationEvidence, storyRevocationEvidence, storyRevocationEvidence, storyRevocationEvidence}
